@@ -20,7 +20,48 @@ def crv {p : Nat} (a b c d : Nat) : EcCurve (Fp2 p) :=
 def out {p : Nat} (P : EcPoint (Fp2 p)) (is_ : List Int) : String :=
   natsToHex [P.x.re, P.x.im, P.z.re, P.z.im] ++ " | " ++ intsToHex is_
 
-def handle : List String → Option String
+def jpt {p : Nat} : List Nat → Option (JacPoint (Fp2 p))
+  | [a, b, c, d, e, f] => some ⟨Fp2.mk' p a b, Fp2.mk' p c d, Fp2.mk' p e f⟩
+  | _ => none
+
+def jpts {p : Nat} : List Nat → List (JacPoint (Fp2 p))
+  | a :: b :: c :: d :: e :: f :: rest => ⟨Fp2.mk' p a b, Fp2.mk' p c d, Fp2.mk' p e f⟩ :: jpts rest
+  | _ => []
+
+def triples : List Nat → List (Nat × Nat × Nat)
+  | a :: b :: c :: rest => (a, b, c) :: triples rest
+  | _ => []
+
+def jout {p : Nat} (J : JacPoint (Fp2 p)) : String :=
+  natsToHex [J.x.re, J.x.im, J.y.re, J.y.im, J.z.re, J.z.im] ++ " | "
+
+/-- `jac.seq <lvl> <nF> a P1 … Pn  ops…` and `jac.dblmul <lvl> 7 a P Q  nbits k l` (curve with C = 1) -/
+def handleJac : List String → Option String
+  | op :: lvl :: nF :: rest => do
+      if !(op.startsWith "jac.") then none
+      let lvl ← parseHexNat? lvl
+      let p ← levelPrime lvl
+      let nF ← parseHexNat? nF
+      let t ← parseNats? rest
+      let fs := t.take (2 * nF)
+      let is_ := t.drop (2 * nF)
+      match fs with
+      | a0 :: a1 :: pts =>
+        let curve : EcCurve (Fp2 p) := { (ec_curve_init : EcCurve (Fp2 p)) with A := Fp2.mk' p a0 a1 }
+        match op, is_ with
+        | "jac.seq", prog =>
+            match jacSeq curve (jpts pts) (triples prog) with
+            | some J => pure (jout J)
+            | none => pure "bad-args"
+        | "jac.dblmul", [nbits, k, l] =>
+            match jpts (p := p) pts with
+            | [P, Q] => pure (jout (jacDBLMUL nbits k l P Q curve))
+            | _ => pure "bad-args"
+        | _, _ => pure "bad-args"
+      | _ => pure "bad-args"
+  | _ => none
+
+def handleEc : List String → Option String
   | op :: lvl :: rest => do
       if !(op.startsWith "ec.") then none
       let lvl ← parseHexNat? lvl
@@ -43,5 +84,10 @@ def handle : List String → Option String
           pure (out r.1 [r.2.is_A24_computed_and_normalized])
       | _, _ => pure "bad-args"
   | _ => none
+
+def handle (ws : List String) : Option String :=
+  match handleJac ws with
+  | some r => some r
+  | none => handleEc ws
 
 end SqiModel.Drv.Ladder
